@@ -9,6 +9,7 @@ from rvproof.contract import contract
 
 from . import links as L
 
+TECHNIQUE = "contract-based deductive verification of the connect step on array-theory link tables of arbitrary size (quantified invariant, z3); operation histories as labelled small-scope bounded stand-in"
 LEVEL = "other"
 LEVEL_TEXT = (
     "Mixed. (a) Deductive: the single-pair step of Project.connect is verified against the link-table invariant for tables of "
